@@ -80,6 +80,12 @@ def run(ctx):
         with ThreadPoolExecutor(16) as ex: msgs = list(ex.map(bashmsg, [r[2] for r, _ in eofs]))
         for (req, out), m in zip(eofs, msgs):
             if 'near unexpected token' in m and "`newline'" not in m:
+                # bash is only a search aid: where bash's grammar is narrower than the declared one (e.g. `!` followed by a list terminator, D12), the
+                # input may be a viable prefix of the DECLARED grammar, and then end of input is the offending token. Viable = some continuation is accepted.
+                def accepted(t):
+                    try: return bool(runner.get_bashlex().parse(t))
+                    except Exception: return False
+                if any(accepted(req[2] + c) for c in (' a', ' a)', '\na\n)', ' a; }', '\na\n}', ' a; fi', ' a; done', ' a;; esac', ') a', ' a; then b; fi', ' a; do b; done')): continue
                 sig = 'eof-reported-but-a-token-is-unexpected'
                 sig_count[sig] += 1
                 fid = common.match_finding(findings, sig, req[2])
